@@ -110,6 +110,11 @@ func c11Peers(b c11Block) []string {
 			res = append(res, "[::ffff:"+c11IP(ip)+"]:4000")
 		}
 	}
+	// genuine IPv6 peers whose low 32 bits spell an address of the block (never inside: the blocks are IPv4)
+	mid := network + (broadcast-network)/2
+	for _, pfx := range []string{"2001:db8::", "fe80::", "64:ff9b::", "::1:"} {
+		res = append(res, fmt.Sprintf("[%s%x:%x]:4000", pfx, mid>>16, mid&0xffff), fmt.Sprintf("[%s%x:%x]:4000", pfx, network>>16, network&0xffff))
+	}
 	res = append(res, "[::1]:4000", "[fe80::1%eth0]:4000", c11IP(network), "", "not-an-address:1", "[::ffff:"+c11IP(network)+"]", c11IP(network)+":", "["+c11IP(network)+"]:80")
 	return res
 }
@@ -504,7 +509,7 @@ func init() {
 	vfRegister(&vfeng.Check{
 		ID:    "C11",
 		Level: "model_checking",
-		Rule:  "exhaustive product prefix length 0..32 x 7 base addresses x boundary peers (network, broadcast, +-1, middle, single-bit flips) x peer forms (v4, v4-mapped v6, v6, zone, no port, text) plus multi-block lists, at library level (GenIPRestrictedX509Cert -> Verify/Extract) and through the real mint / refresh / certgen handlers with realistic verified chains; plus structurally corrupted extensions (bit lengths 0..48, wrong family, 300 blocks, every truncation and byte flip) signed by a trusted CA, through the handlers under three certificate-method configurations; oracle: uint32 arithmetic",
+		Rule:  "exhaustive product prefix length 0..32 x 7 base addresses x boundary peers (network, broadcast, +-1, middle, single-bit flips) x peer forms (v4, v4-mapped v6, v6 incl. addresses whose low 32 bits spell an inside address, zone, no port, text) plus multi-block lists, at library level (GenIPRestrictedX509Cert -> Verify/Extract) and through the real mint / refresh / certgen handlers with realistic verified chains; plus structurally corrupted extensions (bit lengths 0..48, wrong family, 300 blocks, every truncation and byte flip) signed by a trusted CA, through the handlers under three certificate-method configurations; oracle: uint32 arithmetic",
 		Assumptions: []string{"IPv4-mapped IPv6 peers denote the same IPv4 address", "a peer string without a port is not a TCP peer address and must be refused"},
 		Shards: func(tier string) int { return 12 },
 		Run: func(c *vfeng.Ctx) {
